@@ -4,6 +4,7 @@ package props
 
 import (
 	"fmt"
+	"os"
 	"path/filepath"
 	"reflect"
 	"sort"
@@ -344,6 +345,11 @@ func genC06(t *rapid.T) c06Case {
 		}
 		if gr.envFile {
 			long["env_file"] = fmt.Sprintf("vars%d.env", g)
+			if rapid.IntRange(0, 2).Draw(t, "absenvfile") == 0 {
+				// an absolute file name (the placeholder becomes the case's directory when the files are written)
+				long["env_file"] = filepath.Join("@@ROOT@@/proj", parentDir, fmt.Sprintf("vars%d.env", g))
+				cs.Features = append(cs.Features, "absolute-env_file")
+			}
 			useLong = true
 		}
 		if useLong || rapid.Bool().Draw(t, "longsyntax") {
@@ -404,6 +410,11 @@ func c06Load(files []memFile, env map[string]string) loadResult {
 		return loadResult{Err: err}
 	}
 	defer cleanup()
+	for _, f := range placed {
+		if strings.Contains(f.Content, "@@ROOT@@") {
+			_ = os.WriteFile(filepath.Join(root, f.Name), []byte(strings.ReplaceAll(f.Content, "@@ROOT@@", root)), 0o644)
+		}
+	}
 	r := lc.loadAt(root, false, 0)
 	r.Project = rebaseProject(r.Project, root)
 	return r
